@@ -52,7 +52,7 @@ ASSUMPTIONS = ['"major number" is the first number of the release segment (epoch
                'leading zeros, empty components and non-ASCII digits are DONT-CARE (only: no exception other than '
                'ValueError)']
 INTERPRETER_FLAGS = [[], ['-O'], [], ['-bb']]
-CONCURRENT = lambda case: True          # pure functions of their arguments; see vlib/concurrent.py
+CONCURRENT = lambda case: case.get('kind') != 'twins' and (True)          # pure functions of their arguments; see vlib/concurrent.py
 SHARDS = {'quick': 4, 'thorough': 16}
 
 GRID = [0, 1, 9, 10, 99, 100, 999]
@@ -311,7 +311,27 @@ EVAL = {'rt': eval_rt, 'order': eval_order, 'suffix': eval_suffix, 'bad': eval_b
         'compat': eval_compat, 'pred': eval_pred, 'malformed': eval_malformed}
 
 
+def TWIN_FUNCS():
+    from oslo_utils import versionutils as vu
+    return {'is_compatible_requested': lambda v: vu.is_compatible(v, '1.5.0'),
+            'is_compatible_current': lambda v: vu.is_compatible('1.0', v, same_major=False),
+            'convert_version_to_int': lambda v: vu.convert_version_to_int(v),
+            'convert_version_to_tuple': lambda v: vu.convert_version_to_tuple(v),
+            'convert_version_to_str': lambda v: vu.convert_version_to_str(v),
+            'VersionPredicate': lambda v: vu.VersionPredicate(v).satisfied_by('1.2.0')}
+
+
+TWIN_TEXT_FUNCS = ['is_compatible_requested', 'is_compatible_current', 'convert_version_to_int', 'convert_version_to_tuple',
+                   'VersionPredicate']
+TWIN_TEXTS = ['1.2.3', '1.0RC1', '2.0b1', '1.0A1', 'V1.0', '1.5.0.Dev3', '>=1.0RC1,<2.0', '!=1.2.0', '1.2.3B2', '==1.2.0.Post0']
+TWIN_NUM_FUNCS = ['convert_version_to_str']
+TWIN_NUMBERS = [0, 1000, 1002003, 2000000, 999999999]
+
+
 def _evaluate_plain(ctx, case):
+    if case.get('kind') == 'twins':
+        from vlib import twins as _tw
+        return _tw.evaluate_case(ctx, case, TWIN_FUNCS())
     from oslo_utils import versionutils as vu
     from vlib import callstyle
     vu = callstyle.proxy(vu)
@@ -319,7 +339,7 @@ def _evaluate_plain(ctx, case):
 
 
 from vlib import envmodes  # noqa: E402
-evaluate = envmodes.with_modes(_evaluate_plain, lazy=lambda case: True, warn=lambda case: True)
+evaluate = envmodes.with_modes(_evaluate_plain, lazy=lambda case: True, warn=lambda case: True, digits=lambda case: True)
 
 
 # ----------------------------------------------------------------------
@@ -644,6 +664,12 @@ def HAMMER(ctx):
     return out
 
 def run(ctx):
+    # ---- the same characters / the same number handed over as other objects, in several orders (vlib/twins.py)
+    from vlib import twins as _tw
+    for _i, _case in enumerate(_tw.make_cases(ctx.rng('twins'), ctx.pick(160, 8000), TWIN_TEXT_FUNCS, TWIN_TEXTS,
+                                              TWIN_NUM_FUNCS, TWIN_NUMBERS)):
+        if ctx.mine(_i):
+            evaluate(ctx, _case)
     idx = 0
 
     def emit(case, klass=None):
